@@ -56,9 +56,9 @@ prop("C05", ["TaRs.Props.C05", "TaRs.Props.C19"],
      explanation="generic theorems about pure step functions: determinism, clone equivalence, independence under every interleaving of n instances (product of machines); their content for the code is the purity gate + plain-data table (C19 theorems, regenerated every run). Threads are exercised on the implementation only.")
 prop("C06", ["TaRs.Props.C06"],
      explanation="L0: dec (enc s ++ r) = (s, r) for the generated bincode codec of every indicator on every well-formed state; serde_derive/bincode are modelled and tied by byte comparison of every logged state.")
-prop("C07", ["TaRs.Props.C07", "TaRs.Lemmas.Exact.FastStochastic", "TaRs.Lemmas.Exact.EfficiencyRatio", "TaRs.Lemmas.Exact.MoneyFlowIndex"],
-     explanation="L2: ratio-of-non-negatives and convex-combination lemmas, RSI value range, alpha in (0,1]; exact range theorems of FastStochastic/ER/MFI in Lemmas/Exact as completed; 1e-9 slack sampled.")
-prop("C08", ["TaRs.Props.C08", "TaRs.Props.C08Exact", "TaRs.Lemmas.Exact.FastStochastic", "TaRs.Lemmas.Exact.RateOfChange", "TaRs.Lemmas.Exact.EfficiencyRatio", "TaRs.Lemmas.Exact.CommodityChannelIndex", "TaRs.Lemmas.Exact.MoneyFlowIndex"],
+prop("C07", ["TaRs.Props.C07", "TaRs.Props.C07Stream", "TaRs.Lemmas.Exact.FastStochastic", "TaRs.Lemmas.Exact.EfficiencyRatio", "TaRs.Lemmas.Exact.MoneyFlowIndex"],
+     explanation="L2 whole-stream theorems at X K: every output of RSI, FastStochastic (scalars and valid bars), SlowStochastic, MFI lies in [0,100] and of EfficiencyRatio in [0,1], for every period and every finite stream (Props/C07Stream); the 1e-9 rounding slack and MFI's 100·tau·c slack are float-only and sampled.")
+prop("C08", ["TaRs.Props.C08", "TaRs.Props.C08Exact", "TaRs.Props.C07Stream", "TaRs.Lemmas.Exact.FastStochastic", "TaRs.Lemmas.Exact.RateOfChange", "TaRs.Lemmas.Exact.EfficiencyRatio", "TaRs.Lemmas.Exact.CommodityChannelIndex", "TaRs.Lemmas.Exact.MoneyFlowIndex"],
      explanation="L1 guard theorems for any Scalar (output is the neutral literal or a quotient whose denominator tested non-zero on that path) for FastStochastic, CCI, ER, MFI, RSI; exact neutral values at X K from Lemmas/Exact; residue/underflow are float-only and searched on the implementation (two known findings).")
 prop("C09", ["TaRs.Props.C09"],
      explanation="L2 inequalities at X K (SD, MAD >= 0, bands ordered, hulls, Min <= Max), L1 clamp theorem (m2 never negative for any Scalar with not (0 < 0)), L0 histogram identity; tau slack sampled.")
@@ -70,14 +70,14 @@ prop("C12", ["TaRs.Props.C12"],
      explanation="L0 theorem per indicator: from new, every sequence of next/nextBar/reset of any length returns normally for ANY scalar semantics; invariant WF by induction over the op list. clone/Debug/serialize returning normally is observed on the implementation only.")
 prop("C13", ["TaRs.Props.C13"],
      explanation="exact half (theorem): accumulators equal the from-scratch window statistic after every stream of any length (SMA, WMA, SD, MAD, BB); float half (NOT a theorem): drift over 10^5..2·10^6-step runs measured on the implementation against double-double recomputation of the window.")
-prop("C14", ["TaRs.Props.C14"],
+prop("C14", ["TaRs.Props.C14", "TaRs.Props.C14b"],
      explanation="L2: homogeneity/shift laws of the window statistics and their stream-level corollaries through the C01 theorems; bit-exactness for 2^k and 1e-9 otherwise are sampled on pairs of runs.")
 prop("C15", ["TaRs.Props.C15", "TaRs.Props.C15Exact"],
      explanation="L0 simulation identities: each composite run over a stream equals the documented combination of separately constructed public parts run over the same stream (Option-valued, panics compared too). BB.average vs SMA is the exact-arithmetic theorem pair of C01.")
 prop("C16", ["TaRs.Props.C16"],
      explanation="L0: verdict of build() for every setter sequence, getters return the last value, order irrelevance, NaN rejected under the IEEE hypothesis; all 10^5 lattice tuples enumerated on the implementation (exhaustive) and replayed on the model.")
-prop("C17", ["TaRs.Props.C17", "TaRs.Lemmas.Exact.RateOfChange", "TaRs.Lemmas.Exact.EfficiencyRatio"],
-     explanation="L2 corollaries of C01: after any history the output equals that of a fresh indicator fed the last n inputs (SMA, WMA, SD, MAD, BB; Min/Max order-only); n+1-memory indicators and f64 slack are covered by the harness oracle.")
+prop("C17", ["TaRs.Props.C17", "TaRs.Props.C17b"],
+     explanation="L2: after any history the output equals that of a fresh indicator fed the last n (n+1 for ROC, ER, MFI) inputs — SMA, WMA, SD, MAD, BB, CCI, ROC, ER, MFI, FastStochastic; Min/Max/FastStochastic order-only; f64 slack covered by the harness oracle.")
 prop("C18", ["TaRs.Props.C18"],
      explanation="L0: the model's bincode length is a closed form in the parameters, invariant under next/reset, bounded by 256+64·Σperiods; real bincode length compared at every logged state; live heap bytes measured with a counting allocator.")
 prop("C19", ["TaRs.Props.C19"], level="other", oracle=False, extra=_surface,
